@@ -94,6 +94,13 @@ pub fn drive(ctx: &mut Ctx) {
 	like!(ctx, "&[(T,)]/LinkedList", &[(String,)] => LinkedList<String>, LinkedList<String>, |b| { leak_vec(b.iter().map(|x| (x.clone(),)).collect()) });
 	like!(ctx, "LinkedList<&T>/LinkedList<T>", LinkedList<&u8> => LinkedList<u8>, LinkedList<u8>, |b| b.iter().collect());
 	like!(ctx, "BinaryHeap/BinaryHeap", BinaryHeap<u32> => BinaryHeap<u32>, BinaryHeap<u32>, |b| b.clone());
+	like!(ctx, "BinaryHeap/&[(T,)]", BinaryHeap<i16> => &[(i16,)], BinaryHeap<i16>, |b| b.clone());
+	like!(ctx, "BinaryHeap<&T>/BinaryHeap<T>", BinaryHeap<&u8> => BinaryHeap<u8>, BinaryHeap<u8>, |b| b.iter().collect());
+	like!(ctx, "Result<Box<T>,&E>/Result<T,E>", Result<Box<u32>, &bool> => Result<u32, bool>, Result<u32, bool>, |b| match &b { Ok(x) => Ok(Box::new(*x)), Err(e) => Err(e) });
+	like!(ctx, "Option<Option<&T>>/Option<Option<T>>", Option<Option<&u16>> => Option<Option<u16>>, Option<Option<u16>>, |b| b.as_ref().map(|x| x.as_ref()));
+	like!(ctx, "[Option<&T>;2]/[Option<T>;2]", [Option<&u8>; 2] => [Option<u8>; 2], [Option<u8>; 2], |b| [b[0].as_ref(), b[1].as_ref()]);
+	like!(ctx, "Cow<Vec<T>>/Vec<T>", Cow<Vec<u16>> => Vec<u16>, Vec<u16>, |b| Cow::Borrowed(&b));
+	like!(ctx, "&&mut-free chain &&&T via Ref", Ref<&&u32, u32> => u32, u32, |b| Ref::from(leak_box(leak_box(leak_box(b) as &u32) as &&u32)));
 	like!(ctx, "&[(T,)]/BinaryHeap", &[(u32,)] => BinaryHeap<u32>, BinaryHeap<u32>, |b| { leak_vec(b.iter().map(|x| (*x,)).collect()) });
 	// compact
 	like!(ctx, "Compact self", Compact<u64> => Compact<u64>, Compact<u64>, |b| b);
@@ -103,6 +110,12 @@ pub fn drive(ctx: &mut Ctx) {
 	{
 		like!(ctx, "CompactRef<CA>", WrapCRCA => Compact<CA>, Compact<CA>, |b| WrapCRCA(b.0));
 		like!(ctx, "derive self", SNamed => SNamed, SNamed, |b| b.clone());
+		like!(ctx, "derive self (compact fields)", SCompact => SCompact, SCompact, |b| b);
+		like!(ctx, "derive self (encoded_as)", SEncodedAs => SEncodedAs, SEncodedAs, |b| b);
+		like!(ctx, "&derive (skipped variant)/derive", &ESkip => ESkip, ESkip, |b| &b);
+		like!(ctx, "Box<derive>/derive (index attrs)", Box<EIdx> => EIdx, EIdx, |b| Box::new(b));
+		like!(ctx, "Option<&derive>/Option<derive>", Option<&SSingleCompact> => Option<SSingleCompact>, Option<SSingleCompact>, |b| b.as_ref());
+		like!(ctx, "[&derive;2]/[derive;2]", [&STuple; 2] => [STuple; 2], [STuple; 2], |b| [&b[0], &b[1]]);
 		// zero-sized in memory, one byte on the wire: boxes must still read it
 		like!(ctx, "zst/Box<zst>", (EV1, u8) => (Box<EV1>, u8), (Box<EV1>, u8), |b| (EV1::V1, b.1));
 		like!(ctx, "zst/Rc<zst>", (EV1, u16) => (Rc<EV1>, u16), (Rc<EV1>, u16), |b| (EV1::V1, b.1));
